@@ -4,6 +4,7 @@
 //   Ti_REL  0 ownership destructor | 1 release() discarded | 2 release() then clear() of the returned suspend point
 //   Ti_ROUNDS number of lock/critical-section/release rounds (default 1)
 // OWNER0=1: vf_setup takes the lock and thread 1 only releases it (Ti_ACQ of thread 1 ignored) - "a release that overlaps a request".
+// PREQ=r (with OWNER0=1, NT=2): vf_setup also registers a coroutine-protocol request of party 3 that releases with flavour r.
 // FIFO=1 (with OWNER0=1, NT=3): thread 2 requests first, signals, thread 3 requests after the signal, thread 1 releases after
 //   both have requested; the grant order must then be 2 before 3 (C08 first come, first served).
 #include "vf2.h"
@@ -127,6 +128,11 @@ extern "C" void vf_setup() {
 #if OWNER0
     own0 = mx.try_lock();
 #endif
+#ifdef PREQ
+    // a coroutine-protocol request (party 3) is already registered when the threads start: the releasing owner hands the mutex over to it
+    // on its own thread, the new owner releases at once - the owner-private FIFO is written by a thread other than the next requester's
+    { auto *c = new CoroSim<PREQ>(3, 0); c->start(); }
+#endif
 }
 
 extern "C" void vf_thread_1() {
@@ -174,6 +180,8 @@ extern "C" void vf_check() {
     check_thread(2, T2_ACQ, T2_ROUNDS);
 #if NT >= 3
     check_thread(3, T3_ACQ, T3_ROUNDS);
+#elif defined(PREQ)
+    check_thread(3, 2, 1);
 #endif
     vf_assert(owner == 0, "C07 critical section left marked");
     vf_join();
